@@ -117,8 +117,14 @@ def consts():
         if not mm:
             raise FactError('%s not found in include/fix8/f8config.h' % k)
         vals[k] = int(mm.group(1))
+    fld = _src('include/fix8/field.hpp')
+    mm = re.search(r'MAX_MSGTYPE_FIELD_LEN\((\d+)\)', fld)
+    hc = re.search(r'HEADER_CALC_OFFSET\((\d+)\)', fld)
+    if not mm or not hc:
+        raise FactError('MAX_MSGTYPE_FIELD_LEN / HEADER_CALC_OFFSET not found in include/fix8/field.hpp')
     _emit('Consts', '/-- `Logger::max_rotation` -/\ndef maxRotation : Nat := %s\n\ndef maxFldLength : Nat := %d\ndef maxMsgLength : Nat := %d\ndef defaultPrecision : Nat := %d\n'
-          % (m.group(1), vals['FIX8_MAX_FLD_LENGTH'], vals['FIX8_MAX_MSG_LENGTH'], vals['FIX8_DEFAULT_PRECISION']))
+          'def maxMsgTypeFieldLen : Nat := %s\ndef headerCalcOffset : Nat := %s\n'
+          % (m.group(1), vals['FIX8_MAX_FLD_LENGTH'], vals['FIX8_MAX_MSG_LENGTH'], vals['FIX8_DEFAULT_PRECISION'], mm.group(1), hc.group(1)))
 
 
 FT_KIND = {  # FieldTrait::FieldType name -> model kind
